@@ -8,7 +8,7 @@ from ..selftest import Mutant
 
 ID = "C24"
 TECHNIQUE = "per-key decision table of _reconcile_tags by abstract interpretation over (in source, in destination, equal, overwrite, selector verdict) (K8), key codec symmetry (K6), provenance of the dictionary written to the destination (K5) (ast)"
-FLOOR = 30
+FLOOR = 42
 TG = "breezy/tag.py"
 BT = "breezy/bzr/tag.py"
 EXPLANATION = """
